@@ -18,8 +18,9 @@ def near(a, b):
 
 @spec
 def obs(q):
-    """what a quantity reports and computes with: value, units as text, uncertainty, and the unit list itself (exponent per unit, factor)"""
-    return (q.magnitude.value, q.baseunits.expression, q.magnitude.error,
+    """what a quantity reports and computes with: value and its number type, units as text, uncertainty, and the unit list itself
+    (exponent per unit, factor)"""
+    return (q.magnitude.value, typename(q.magnitude.value), q.baseunits.expression, q.magnitude.error,
             [(k, f.num / f.den) for k, f in q.baseunits.baseunits.items()], q.baseunits.magnitude)
 
 
